@@ -2300,6 +2300,22 @@ fn gen_c02(r: &mut Rng, seed: u64) -> Scenario {
                 sc.world.auxv_terminated = r.coin();
                 push_tags(&mut tags, &["h:auxv-file"]);
             }
+            15 => {
+                // the stop does not take effect in time (or at all)
+                for t in sc.world.threads.iter_mut() {
+                    t.stop_latency_ns = *r.pick(&[0u64, 2_000_000, 150_000_000, 10_000_000_000]);
+                }
+                if let Workload::Dump(p) = &mut sc.workload {
+                    p.opts.stop_timeout_ms = Some(*r.pick(&[0u64, 1, 5, 100]));
+                }
+                if r.chance(1, 3) && sc.world.threads.len() > 1 {
+                    let blamed = match &sc.workload { Workload::Dump(p) => p.opts.blamed, _ => PID };
+                    if blamed != PID {
+                        sc.world.threads[0].zombie = true;
+                    }
+                }
+                push_tags(&mut tags, &["h:stop-late"]);
+            }
             _ => {
                 // events: process killed or threads exiting at arbitrary calls
                 let kind = *r.pick(&[CallKind::Read, CallKind::PtraceAttach, CallKind::Waitpid, CallKind::Vmreadv, CallKind::PtraceGetregset, CallKind::Open]);
